@@ -1,6 +1,7 @@
 //! Agent universe, action alphabet and the driver that executes actions on the real `StunAgent`.
 
 pub mod model;
+pub mod prelude;
 pub mod schedule;
 pub mod spec;
 
